@@ -134,7 +134,7 @@ def canon_chunks(chunks):
 
 def run(ctx):
     common.lib_setup()
-    from AoE2ScenarioParser.objects.support.area import Area
+    from AoE2ScenarioParser.objects.support.area import Area, AreaAttr
     rng = ctx.rng
 
     R = common.Result(
@@ -149,6 +149,7 @@ def run(ctx):
 
     cmds, expect, metas = [], [], []
     per_sig = {}
+    live = {}
 
     # ---- run one case on the real code -------------------------------------------------------------------------
     def build(c):
@@ -158,6 +159,9 @@ def run(ctx):
             # an Area object with a previous life: same map, same pattern configuration, ANOTHER rectangle; every
             # observer is consumed once, then only the rectangle is changed (select / direct assignment / on a copy())
             a = Area(map_size=c["size"], x1=w[0], y1=w[1], x2=w[2], y2=w[3])
+        elif c.get("live"):
+            # an Area handed out by a live scenario (it asks the scenario for the map size); the map was resized before
+            a = live["scn"].new.area().select(x1, y1, x2, y2)
         elif c["via"] == "ctor":
             a = Area(map_size=c["size"], x1=x1, y1=y1, x2=x2, y2=y2)
         elif c["via"] == "select":
@@ -181,8 +185,21 @@ def run(ctx):
         st = c["st"]
         axis = {"x": "x", "y": "y", "o": None}[c["ax"]]
         # every size through the documented per-axis attributes, then the state through its use_* function
-        a.attrs(gap_size_x=c["gx"], gap_size_y=c["gy"], line_width_x=c["lx"], line_width_y=c["ly"],
-                block_size_x=c["bx"], block_size_y=c["by"], corner_size_x=c["cx"], corner_size_y=c["cy"])
+        # every size through the documented per-axis attributes, then the state through its use_* function; in the
+        # `akeys` variant the state is chosen first (use_* without sizes) and the eight sizes are then set one key at a time
+        # through `attr(AreaAttr.<KEY>, value)` (y before x, so that a key landing on its neighbour shows)
+        akeys = bool(c["flip"]) and (c["size"] + c["gx"] + c["by"] + c["cx"]) % 2 == 0
+        if akeys:
+            {"full": a.use_full, "edge": a.use_only_edge, "grid": a.use_pattern_grid, "corners": a.use_only_corners,
+             "lines": (lambda: a.use_pattern_lines(axis=axis))}[st]()
+            for key, v in ((AreaAttr.GAP_SIZE_Y, c["gy"]), (AreaAttr.GAP_SIZE_X, c["gx"]), (AreaAttr.LINE_WIDTH_Y, c["ly"]),
+                           (AreaAttr.LINE_WIDTH_X, c["lx"]), (AreaAttr.BLOCK_SIZE_X, c["bx"]), (AreaAttr.BLOCK_SIZE_Y, c["by"]),
+                           (AreaAttr.CORNER_SIZE_X, c["cx"]), (AreaAttr.CORNER_SIZE_Y, c["cy"])):
+                a.attr(key, v)
+            st = "done"
+        else:
+            a.attrs(gap_size_x=c["gx"], gap_size_y=c["gy"], line_width_x=c["lx"], line_width_y=c["ly"],
+                    block_size_x=c["bx"], block_size_y=c["by"], corner_size_x=c["cx"], corner_size_y=c["cy"])
         if st == "full":
             a.use_full()
         elif st == "edge":
@@ -205,9 +222,9 @@ def run(ctx):
                 a.use_only_corners(corner_size=c["cx"])
             else:
                 a.use_only_corners(corner_size_x=c["cx"], corner_size_y=c["cy"])
-        if c["ax"] == "o" and st != "lines" and c["flip"]:
+        if c["ax"] == "o" and c["st"] != "lines" and c["flip"]:
             a.along_axis("diagonal")
-        elif c["ax"] != "o" and st != "lines":
+        elif c["ax"] != "o" and c["st"] != "lines":
             a.along_axis(axis)
         if c["inv"]:
             a.invert()
@@ -504,6 +521,24 @@ def run(ctx):
         do(random_case(9, True), "random-odd")
     for _ in range(n_big):
         do(random_case(60, rng.random() < 0.15), "random-big")
+
+    # ---- areas of a live scenario whose map is resized between the uses ---------------------------------------------
+    from AoE2ScenarioParser.scenarios.aoe2_de_scenario import AoE2DEScenario
+    import contextlib, io
+    with contextlib.redirect_stdout(io.StringIO()):
+        live["scn"] = AoE2DEScenario.from_default()
+    for n in ([9, 5, 12, 3] if ctx.quick else [9, 5, 12, 3, 20, 7, 1, 8]):
+        live["scn"].map_manager.map_size = n
+        for _ in range(ctx.budget(25, 120)):
+            c = random_case(n, False)
+            c["size"] = n
+            r = [min(max(v if v is not None else 0, 0), n) for v in c["rect"]]
+            c["rect"] = (min(r[0], r[2]), min(r[1], r[3]), max(r[0], r[2]), max(r[1], r[3]))
+            c.pop("warm", None)
+            c["live"], c["via"] = True, "select"
+            if -1 in c["rect"]:
+                continue
+            do(c, "live-resized")
 
     # ---- correspondence: diff against the Lean model --------------------------------------------------------------
     drv = ctx.driver()
